@@ -433,9 +433,70 @@ func c18SortedLeakRows(rows []c18LeakRow) []c18LeakRow {
 	return out
 }
 
+// c18SpyPool hands out buffers that remember every byte written to them: what a SortingWriter
+// spills to its SortingBuffers (which may be files: NewFileBufferPool).
+type c18SpyPool struct {
+	mu      sync.Mutex
+	inner   parquet.BufferPool
+	written [][]byte
+}
+
+type c18SpyBuffer struct {
+	io.ReadWriteSeeker
+	pool *c18SpyPool
+}
+
+func (b *c18SpyBuffer) Write(p []byte) (int, error) {
+	b.pool.mu.Lock()
+	b.pool.written = append(b.pool.written, append([]byte{}, p...))
+	b.pool.mu.Unlock()
+	return b.ReadWriteSeeker.Write(p)
+}
+
+func (p *c18SpyPool) GetBuffer() io.ReadWriteSeeker {
+	return &c18SpyBuffer{ReadWriteSeeker: p.inner.GetBuffer(), pool: p}
+}
+
+func (p *c18SpyPool) PutBuffer(b io.ReadWriteSeeker) {
+	if sb, ok := b.(*c18SpyBuffer); ok {
+		p.inner.PutBuffer(sb.ReadWriteSeeker)
+	}
+}
+
+// c18SortingSpill: outside the property as stated (it speaks of the file), recorded as an
+// observation: the sorted runs a SortingWriter spills to its SortingBuffers are written by an inner
+// writer that is not given the encryption configuration.
+func c18SortingSpill(ctx *core.Ctx, r *rand.Rand) {
+	defer func() { recover() }()
+	rows, pats := c18LeakRows(r, 60)
+	enc := &c18Enc{EncFooter: true, FooterKey: c18RandKey(r), KeyMode: "footer-only"}
+	spy := &c18SpyPool{inner: parquet.NewBufferPool()}
+	var buf bytes.Buffer
+	w := parquet.NewSortingWriter[c18LeakRow](&buf, 16, parquet.WithEncryption(enc.Config()),
+		parquet.SortingWriterConfig(parquet.SortingColumns(parquet.Ascending("i")), parquet.SortingBuffers(spy)))
+	if _, err := w.Write(rows); err != nil {
+		return
+	}
+	if err := w.Close(); err != nil {
+		return
+	}
+	var spilled []byte
+	for _, b := range spy.written {
+		spilled = append(spilled, b...)
+	}
+	inFile, _ := c18Scan(buf.Bytes(), pats)
+	inSpill, _ := c18Scan(spilled, pats)
+	ctx.Hist("options_l1", fmt.Sprintf("sorting-writer spill: %d bytes, columns in clear: file %d, spill %d", len(spilled)/1000*1000, len(inFile), len(inSpill)))
+	if len(inSpill) > 0 && len(inFile) == 0 {
+		ctx.Observe("sorting-writer-spills-plaintext-to-sorting-buffers", "NewSortingWriter with WithEncryption writes an encrypted output file, but the sorted runs it spills to SortingBuffers (a BufferPool, possibly file-backed: NewFileBufferPool) are written by an inner GenericWriter built from a WriterConfig literal without the Encryption field (sorting.go:54-65): the values of encrypted columns reach that storage in clear. Outside the property as stated (it speaks of the bytes of the FILE).",
+			map[string]any{"columns_in_clear_in_the_spill": inSpill, "columns_in_clear_in_the_file": inFile, "spilled_bytes": len(spilled), "encryption": enc.Desc()})
+	}
+}
+
 func RunC18Options(ctx *core.Ctx) {
 	ctx.SetRule(c18Rule)
 	r := ctx.Rand("c18/options")
+	c18SortingSpill(ctx, ctx.Rand("c18/options/spill"))
 	// three encryption set-ups with different keys: which one the file is sealed with is observable
 	var encs []*c18Enc
 	encCfgs := []*parquet.EncryptionConfig{nil}
